@@ -47,8 +47,28 @@ def BOUNDS(tier):
             'defaults_history_depth': 3 if tier == 'quick' else 4, 'defaults_history_families': len(hist_families())}
 
 
-def ops(state):
+KEYS2 = ['a_b', 'a-b', 'c']      # second profile: keys that the dash / underscore helpers respell
+
+
+def ops(state, keys=None):
+    keys = keys or KEYS
     present = [k for k, _ in state]
+    if keys is KEYS2:
+        # the key-respelling helpers, when they do not make two keys equal (outside the domain)
+        for name, a, b in (('unders', '-', '_'), ('dashes', '_', '-')):
+            new = [k.replace(a, b) for k in present]
+            if len(set(new)) == len(new):
+                yield (name,)
+        for k in keys:
+            yield ('has', k)
+            yield ('get', k)
+            yield ('remove', k)
+            for v in ('vi', 'NODE'):
+                yield ('set', k, v)
+            for k2 in keys:
+                if k2 == k or k2 not in present:
+                    yield ('rename', k, k2)
+        return
     for k in KEYS:
         yield ('has', k)
         yield ('get', k)
@@ -88,6 +108,10 @@ def model(state, op):
         return tuple((op[2] if k == op[1] else k, v) for k, v in state), None
     if op[0] == 'hastype':
         return state, (op[1] in d and tmatch(d[op[1]], op[2]))
+    if op[0] == 'unders':
+        return tuple((k.replace('-', '_'), v) for k, v in state), None
+    if op[0] == 'dashes':
+        return tuple((k.replace('_', '-'), v) for k, v in state), None
     raise ValueError(op)
 
 
@@ -105,11 +129,17 @@ def apply_impl(n, op):
             return n.rename_attribute(op[1], op[2])
         if op[0] == 'hastype':
             return n.has_attribute_type(op[1], TYPES[op[2]])
+        if op[0] == 'unders':
+            return n.dashes_to_unders_in_keys()
+        if op[0] == 'dashes':
+            return n.unders_to_dashes_in_keys()
     except (yatiml.SeasoningError, KeyError):
         return 'ABSENT'
 
 
 def fresh(init):
+    if init == ('k2',):
+        return yatiml.Node(yaml.MappingNode(P + 'map', []))
     if init and init[0] == 'text':
         # composed from text: the nodes carry marks, and an alias is the SAME node object as its anchor
         return yatiml.Node(yaml.compose(init[1]))
@@ -122,13 +152,14 @@ def state_of(n):
 
 INITS = ([()] + [((k, v),) for k in 'ab' for v in [VALS['vi'][0], NODEVAL, ('m', P + 'map', ())]]
          + [(('a', VALS['vi'][0]), ('b', VALS['vs'][0])), (('b', VALS['vn'][0]), ('a', NODEVAL))]
+         + [('k2',), (('a_b', VALS['vi'][0]),), (('a-b', NODEVAL), ('c', VALS['vs'][0])), (('c', VALS['vi'][0]), ('a_b', VALS['vs'][0]))]
          + [('text', 'a: !!str {x: 1}\nb: !!int [1]\n'), ('text', 'a: !!null []\nb: !!map x\n'),
             ('text', 'a: &x 1\nb: *x\n'), ('text', 'b: &y [1]\na: *y\n'), ('text', 'a: s\nb: 1.5\n')])
 
 
 def run_bfs(init, depth, res):
     """BFS from one initial state; histories are replayed on a fresh Node for every transition"""
-    s0 = state_of(fresh(init)) if init and init[0] == 'text' else init
+    s0 = state_of(fresh(init)) if init and init[0] == 'text' else (() if init == ('k2',) else init)
     seen = {s0: ()}
     frontier = collections.deque([s0])
     while frontier:
@@ -137,7 +168,7 @@ def run_bfs(init, depth, res):
         res.states += 1
         if len(hist) >= depth:
             continue
-        for op in ops(s):
+        for op in ops(s, KEYS2 if (init and init[0] != 'text' and any(k in KEYS2[:2] for k, _ in init)) or init == ('k2',) else None):
             res.transitions += 1
             n = fresh(init)
             for h in hist:
@@ -174,6 +205,8 @@ def run_bfs(init, depth, res):
 
 
 def short(state):
+    if state == ('k2',):
+        return '{} (keys a_b, a-b, c)'
     if state and state[0] == 'text':
         return state[1]
     return [(k, v[1].split(':')[-1] + ':' + str(v[2])[:12]) for k, v in state]
